@@ -39,6 +39,8 @@ import (
 	_ "verifsim/shapes/person"
 	_ "verifsim/shapes/rep3"
 	_ "verifsim/shapes/wide"
+	_ "verifsim/shapes/bits"
+	_ "verifsim/shapes/clash"
 	_ "verifsim/shapes/flatp"
 	_ "verifsim/shapes/kvp"
 	_ "verifsim/shapes/nestedp"
@@ -222,6 +224,21 @@ func cmdReplay(args []string) int {
 	p := props.Get(rf.Property)
 	if p == nil {
 		fatal2("unknown property " + rf.Property)
+	}
+	if rf.TimeSim != nil {
+		tr, err := runTimeSim(*rf.TimeSim)
+		if err != nil {
+			fmt.Printf("replay: simulated-clock arm could not run: %v\n", err)
+			return 2
+		}
+		if len(tr.Violations) == 0 {
+			fmt.Printf("replay: property=%s held on the replayed case (recorded signature %s)\n", rf.Property, rf.Signature)
+			return 0
+		}
+		v := tr.Violations[0]
+		fmt.Printf("signature=%s\ndetail=%s\n", v.Sig, v.Detail)
+		fmt.Printf("VIOLATION property=%s replay=%s\n", rf.Property, args[0])
+		return 1
 	}
 	if rf.RaceMonitor != nil {
 		sig, detail, err := runRaceMonitor(*rf.RaceMonitor, "")
@@ -545,6 +562,42 @@ func cmdRun(args []string) int {
 		}
 	}
 
+	// ---- simulated-clock arm (C08 only; deterministic; built by the newer toolchain because it needs testing/synctest)
+	var timeEv map[string]interface{}
+	if os.Getenv("SIMCHECK_TIMESIM") != "" && p.ID() == "C08" {
+		spec := core.TimeSpec{Seed: *seed, Runs: 200, Only: -1}
+		if *tier == "thorough" {
+			spec.Runs = 4000
+		}
+		t0 := time.Now()
+		tr, err := runTimeSim(spec)
+		if err != nil {
+			infra += fmt.Sprintf("simulated-clock arm: %v\n", err)
+		} else {
+			timeEv = map[string]interface{}{"ran": true, "files": tr.Files, "bubbles": tr.Bubbles, "simulated_seconds": tr.FakeSeconds, "source_calls": tr.Calls,
+				"delayed_calls": tr.DelayedCalls, "delay_plans": tr.Plans, "unusable": tr.Unusable, "wall_s": time.Since(t0).Seconds(), "deterministic": true,
+				"note": "every Read/Seek of the simulated source sleeps on the fake clock of a testing/synctest bubble (steady 1 ms..61 s per call, one stall of 30..180 min, jitter 0..2 s); the reader must return what it returns for the same fragmentation without delays"}
+			if tr.Bubbles == 0 {
+				infra += "simulated-clock arm: no bubble ran\n"
+			}
+			for n, v := range tr.Violations {
+				if n >= 3 {
+					break
+				}
+				nViol++
+				one := core.TimeSpec{Seed: spec.Seed, Runs: spec.Runs, Only: v.Index}
+				rf := core.ReplayFile{Property: "C08", Signature: v.Sig, Detail: v.Detail, Seed: *seed, Tier: *tier, Shrunk: "single index of the simulated-clock arm (the file itself is not minimised)", TimeSim: &one}
+				b, _ := json.MarshalIndent(rf, "", " ")
+				path := filepath.Join(*verif, "replays", fmt.Sprintf("C08-%d-time-%d.json", *seed, v.Index))
+				os.MkdirAll(filepath.Join(*verif, "replays"), 0o755)
+				os.WriteFile(path, b, 0o644)
+				fmt.Printf("violation: %s\n  %s\n", v.Sig, firstLines(v.Detail, 12))
+				fmt.Printf("VIOLATION property=C08 replay=%s\n", path)
+				exit = 1
+			}
+		}
+	}
+
 	// ---- one KNOWN-FINDING line per listed finding of this property
 	for _, k := range known {
 		if k.Prop != p.ID() {
@@ -637,6 +690,9 @@ func cmdRun(args []string) int {
 			"workers": *workers,
 		},
 	}
+	if timeEv != nil {
+		ev["coverage"].(map[string]interface{})["simulated_clock"] = timeEv
+	}
 	if raceEv != nil {
 		ev["coverage"].(map[string]interface{})["race_monitor"] = raceEv
 	}
@@ -657,6 +713,45 @@ func cmdRun(args []string) int {
 		return 2
 	}
 	return 0
+}
+
+type timeViolation struct {
+	Index  int    `json:"index"`
+	Sig    string `json:"sig"`
+	Detail string `json:"detail"`
+}
+
+type timeResult struct {
+	Files        int             `json:"files"`
+	Bubbles      int             `json:"bubbles"`
+	FakeSeconds  float64         `json:"simulated_seconds"`
+	Calls        int             `json:"source_calls"`
+	DelayedCalls int             `json:"delayed_calls"`
+	Plans        map[string]int  `json:"plans"`
+	Unusable     int             `json:"unusable"`
+	Violations   []timeViolation `json:"violations"`
+}
+
+// runTimeSim runs the fake-clock test binary named by SIMCHECK_TIMESIM.
+func runTimeSim(spec core.TimeSpec) (*timeResult, error) {
+	bin := os.Getenv("SIMCHECK_TIMESIM")
+	if bin == "" {
+		return nil, fmt.Errorf("SIMCHECK_TIMESIM is not set")
+	}
+	sb, _ := json.Marshal(spec)
+	cmd := exec.Command(bin, "-test.run", "^TestSimulatedClock$", "-test.count=1", "-test.timeout", "40m")
+	cmd.Env = append(os.Environ(), "TIMESIM_SPEC="+string(sb), "GOMAXPROCS=2")
+	out, err := cmd.CombinedOutput()
+	for _, line := range strings.Split(string(out), "\n") {
+		if strings.HasPrefix(line, "TIMESIM-RESULT ") {
+			var tr timeResult
+			if e := json.Unmarshal([]byte(strings.TrimPrefix(line, "TIMESIM-RESULT ")), &tr); e != nil {
+				return nil, e
+			}
+			return &tr, nil
+		}
+	}
+	return nil, fmt.Errorf("fake-clock binary gave no result (%v): %s", err, firstLines(string(out), 20))
 }
 
 // runRaceMonitor runs the -race monitor binary named by SIMCHECK_RACEMON.
